@@ -97,7 +97,7 @@ theorem inv_sweeps {cfg : Cfg} {g : G} (h : InvA cfg g) : InvA cfg (sweeps g) :=
 theorem inv_of_frame {cfg : Cfg} {g g' : G} {i : Nat} {restart : Bool} (h : InvA cfg g)
     (fr : SubmitFrame cfg i restart g g') (hc : i ∉ g.completed) : InvA cfg g' := by
   obtain ⟨h1, h2, h3, h4, h5, h6, h7, h8, h9, h10, h11, h12, h13⟩ := h
-  obtain ⟨f1, f2, f3, f4, f5, f6, f7, f8, f9, f10, f11, f12, f13⟩ := fr
+  obtain ⟨f1, f2, f3, f4, f5, f6, f7, f8, f9, f10, f11, f12, f13, f14, f15, f16⟩ := fr
   constructor
   all_goals simp only [f4, f5, f6, f7, f8, f9, f11, f12]
   all_goals grind
